@@ -7,9 +7,10 @@ logs, the straggler rejoins and is brought up to date FROM A SNAPSHOT (its batte
 
 Monitor (the property statement): every callback result == the builtin's result for the same call, in
 submission order; at the end all three replicas hold contents equal to the builtin's.
-(`ReplSet.pop` is left out of the streams here: it is the recorded finding D20, replayed by
-`witness/d20_replset_pop_layout.py` and found by the monitor of `corr/batteries_ops.py`.  Calls that
-raise are left out too: what a raising replicated method does to a cluster is property C12.
+`ReplSet.pop` is part of the streams (D20 repaired): the callback result must be a member of the mimic
+set, exactly it is removed from the mimic, and every replica -- the one rebuilt from the snapshot
+included -- must end with the mimic's contents.  Calls that raise are left out: what a raising
+replicated method does to a cluster is property C12.
 `ReplList.__setitem__` is `@replicated(ver=1)` and needs `setCodeVersion(1)`: property C17.)
 """
 import hashlib
@@ -46,8 +47,10 @@ def make_sim(repo, seed, maxsize):
 
 
 def gen_ops(rng, n, maxsize):
-    """mutating calls only (reads are local; contents are compared at the end); no ReplSet.pop (D20); no
-    call that raises (what a raising replicated method does to the cluster is property C12's subject)"""
+    """mutating calls only (reads are local; contents are compared at the end); no call that raises (what a
+    raising replicated method does to the cluster is property C12's subject).  The tracker only steers
+    the generation (sizes, non-raising calls); for ReplSet.pop it removes the element with the smallest
+    (type name, repr) -- should the implementation choose otherwise, `evaluate` follows the implementation."""
     out = []
     track = dict((c, bo.make_builtin(c, maxsize)) for c in NAMES)
     while len(out) < n:
@@ -55,7 +58,13 @@ def gen_ops(rng, n, maxsize):
         v = track[cls].v
         size = v.qsize() if cls in ("queue", "pq") else 0 if cls == "counter" else len(v)
         op = bo.gen_op(rng, cls, size)
-        if op[0] not in bo.REPLICATED[cls] or (cls == "set" and op[0] == "pop"):
+        if op[0] not in bo.REPLICATED[cls]:
+            continue
+        if cls == "set" and op[0] == "pop":
+            if not v:
+                continue
+            v.remove(min(v, key=lambda x: (type(x).__name__, repr(x))))
+            out.append((cls, op))
             continue
         if cls == "list" and op[0] == "__setitem__":
             # @replicated(ver=1): only callable through a cluster after setCodeVersion(1) -- code versions
@@ -142,7 +151,11 @@ def evaluate(sim, ops, results, maxsize):
     # schedule preserves per battery only if commands are not reordered: check with the final contents too.
     n_cb = 0
     for k, (cls, op) in enumerate(ops):
-        want = bo.call_builtin(cls, builtins[cls], op)
+        if cls == "set" and op[0] == "pop" and k in results:
+            # reference = the set abstraction: the returned element is a member, exactly it is removed
+            want = bo.call_builtin(cls, builtins[cls], op, results[k][0] if results[k][1] == 0 else bo.NO_ORACLE)
+        else:
+            want = bo.call_builtin(cls, builtins[cls], op)
         if k not in results:
             viols.append({"signature": "batteries.cluster:callback-missing",
                           "what": "no callback for %s.%s%r (submission %d)" % (bo.CLSNAME[cls], op[0], tuple(op[1:]), k)})
